@@ -3,13 +3,16 @@
 //! Input line:  `<G|S> ; op , op , ...`   (G = petgraph::Graph, S = petgraph::stable_graph::StableGraph)
 //! ops:  `N k b`  add a node with b (0, 1 or 2) output buffers (k = 0: output is a pure function of the inputs,
 //!                k = 1: also of its call count); b = 0 is NodeData::new(node, vec![]), a meter-style node
+//!       `C c k`  add a node (kind k as for N) built by one of the short-hand constructors: c = 1 `NodeData::new1(BoxedNode::new(n))`,
+//!                2 `NodeData::new2(BoxedNode::new(n))`, 3 `NodeData::boxed1(n)`, 4 `NodeData::boxed2(n)`; what the constructor
+//!                made is observed (`19`) before the sentinels are written into the buffers
 //!       `E a b`  add an edge a -> b        `R a`  remove node a (StableGraph only)
 //!       `P o`    Processor::process(graph, o) on the ONE processor of the case
 //!       `A a`    arm the node in slot a: its next invocation panics inside Node::process (once, after logging);
 //!                the unwinding out of Processor::process is caught and the SAME processor is used on
 //!       `B`      snapshot of every slot's buffer value and call count     `Q`  sources() and sinks()
 //! Output: observations joined by ';':
-//!   `1 idx` (N)  `2` (E)  `3 0|1` (R: None|Some)
+//!   `1 idx` (N, C)  `19 nbuf bits` (C: number of buffers the constructor made, sum of the bit patterns of all their samples)  `2` (E)  `3 0|1` (R: None|Some)
 //!   `10 n` then n times `11 who k len_1..len_k from_1..from_k seen_1..seen_k` (P: invocation log in call
 //!        order, recorded inside Node::process; len_i = number of buffers input i shows, from_i = identity
 //!        sentinel found in its first buffer (-1 when it has none), seen_i = sum of the values in its buffers)
@@ -106,12 +109,29 @@ macro_rules! run_case {
         for op in ops {
             let a: Vec<i64> = op[1..].iter().map(|t| t.parse().unwrap()).collect();
             match op[0] {
-                "N" => {
+                "N" | "C" => {
                     let id = Rc::new(Cell::new(-1));
                     let count = Rc::new(Cell::new(0));
                     let armed = Rc::new(Cell::new(false));
-                    let inst = Inst { id: id.clone(), kind: a[0], count: count.clone(), armed: armed.clone(), log: log.clone() };
-                    let idx = g.add_node(NodeData::boxed(inst, vec![Buffer::SILENT; a[1] as usize]));
+                    let kind = if op[0] == "N" { a[0] } else { a[1] };
+                    let inst = Inst { id: id.clone(), kind, count: count.clone(), armed: armed.clone(), log: log.clone() };
+                    let data: NodeData<BoxedNode> = if op[0] == "N" {
+                        NodeData::boxed(inst, vec![Buffer::SILENT; a[1] as usize])
+                    } else {
+                        match a[0] {
+                            1 => NodeData::new1(BoxedNode::new(inst)),
+                            2 => NodeData::new2(BoxedNode::new(inst)),
+                            3 => NodeData::boxed1(inst),
+                            4 => NodeData::boxed2(inst),
+                            other => panic!("unknown constructor {}", other),
+                        }
+                    };
+                    // what the constructor made, before anything is written into the buffers
+                    let made = (
+                        data.buffers.len() as i64,
+                        data.buffers.iter().map(|b| b.iter().map(|x| x.to_bits() as i64).sum::<i64>()).sum::<i64>(),
+                    );
+                    let idx = g.add_node(data);
                     let i = idx.index();
                     id.set(i as i64);
                     {
@@ -128,6 +148,9 @@ macro_rules! run_case {
                         handles.push((id, count, armed));
                     }
                     out.push(obs(1, &[i as i64]));
+                    if op[0] == "C" {
+                        out.push(obs(19, &[made.0, made.1]));
+                    }
                 }
                 "E" => {
                     match my_catch(|| {
